@@ -1,5 +1,6 @@
 CONSTANTS
   GlyphCounts = {1, 2, 30, 255, 256, 257}
+  Span = 5
   IdxLens = {254, 255, 256, 257}
   Dense = FALSE
   Focus = "random"
